@@ -66,6 +66,16 @@ type FuncContract struct {
 	Retains        []string
 	AllowAlias     string
 	Writes         []string
+	Bounded        []BoundedSpec
+	ReturnsAlias   string // the function hands out a slice it also keeps (no copy): reason / what it aliases
+}
+
+// BoundedSpec: a bounded stand-in for a trusted function: a test of its contract on the real code
+// (file under /verif/bounded, injected with go test -overlay), never counted as proved.
+type BoundedSpec struct {
+	File  string // relative to /verif/bounded
+	Test  string
+	Bound string
 }
 
 type AtCall struct {
@@ -131,7 +141,7 @@ func NewContracts() *Contracts {
 var clauseKeywords = map[string]bool{
 	"props": true, "requires": true, "ensures": true, "assigns": true, "pure": true, "trusted": true,
 	"assumed": true, "terminates": true, "loop": true, "measure": true, "maypanic": true, "note": true,
-	"ensures_always": true, "noinline": true, "let": true, "model": true, "recursion_assumed": true, "assume_nopanic": true, "defines": true, "at_call": true, "retains": true, "allow_alias": true, "writes": true,
+	"ensures_always": true, "noinline": true, "let": true, "model": true, "recursion_assumed": true, "assume_nopanic": true, "defines": true, "at_call": true, "bounded": true, "retains": true, "returns_alias": true, "allow_alias": true, "writes": true,
 }
 
 // normaliseFuncKey turns "(*Cursor).Pos" into "(*pkgpath.Cursor).Pos" and "Name" into "pkgpath.Name".
@@ -505,6 +515,13 @@ func (cs *Contracts) LoadFile(path, pkgPath string) error {
 				cs.AssumedList = append(cs.AssumedList, fmt.Sprintf("assumed %s: %s", cur.Key, rest))
 			case "terminates":
 				cur.Terminates = true
+			case "bounded":
+				// bounded <file under /verif/bounded> <TestName> <what is explored, with the bound>
+				f := strings.Fields(rest)
+				if len(f) < 3 {
+					return fail(fmt.Errorf("bounded <file> <TestName> <bound>"))
+				}
+				cur.Bounded = append(cur.Bounded, BoundedSpec{File: f[0], Test: f[1], Bound: strings.TrimSpace(strings.TrimPrefix(strings.TrimSpace(strings.TrimPrefix(rest, f[0])), f[1]))})
 			case "at_call":
 				// at_call <substring of callee name> <expr>: expr must hold just before every such call
 				f := strings.Fields(rest)
@@ -523,6 +540,12 @@ func (cs *Contracts) LoadFile(path, pkgPath string) error {
 			case "retains":
 				// the function keeps a reference to this slice parameter (stores it without copying)
 				cur.Retains = append(cur.Retains, strings.Fields(rest)...)
+			case "returns_alias":
+				// the result is (a reslice of) a slice the function also keeps in the heap: callers share its array
+				cur.ReturnsAlias = rest
+				if cur.ReturnsAlias == "" {
+					cur.ReturnsAlias = "declared"
+				}
 			case "allow_alias":
 				cur.AllowAlias = rest
 				if cur.AllowAlias == "" {
